@@ -10,6 +10,8 @@ ARITH_TRAITS = {
     "core::ops::AddAssign": "add=", "core::ops::SubAssign": "sub=", "core::ops::MulAssign": "mul=", "core::ops::DivAssign": "div=", "core::ops::RemAssign": "rem=",
     "core::ops::Shl": "shl", "core::ops::Shr": "shr", "core::ops::ShlAssign": "shl=", "core::ops::ShrAssign": "shr=",
     "core::ops::Neg": "neg",
+    "core::ops::BitAnd": "bitand", "core::ops::BitOr": "bitor", "core::ops::BitXor": "bitxor",
+    "core::ops::BitAndAssign": "bitand=", "core::ops::BitOrAssign": "bitor=", "core::ops::BitXorAssign": "bitxor=",
 }
 
 
@@ -136,6 +138,35 @@ def dispatch(it, body, st, t, fn, args, depth):
         if cur[0] == "mag":
             it.store(st, args[0][1], args[0][2], MAG(0 if name == "set_zero" else 1))
             return ret(st, UNIT)
+    # ---- digit-level views and helpers used by the BigInt bit operators (effects on the magnitude are opaque)
+    if tr == "biguint::IntDigits" and name in ("digits_mut", "digits") and args and args[0][0] == "ptr":
+        v = it.load(st, args[0])
+        a0 = args[0]
+        while v[0] == "ptr":
+            a0 = v
+            v = it.load(st, a0)
+        if v[0] == "struct" and v[1] == "bigint::BigInt":
+            return ret(st, PTR(a0[1], a0[2] + ("data",)))
+        if v[0] == "mag":
+            return ret(st, a0)
+    if tr == "biguint::IntDigits" and name in ("len", "capacity") and args:
+        v = it.deref_all(st, args[0])
+        m = v[2]["data"][1] if v[0] == "struct" else (v[1] if v[0] == "mag" else None)
+        if m is not None:
+            return ret(st, INT(opaque_sym(name, m), "usize"))
+    if path.startswith("bigint::bits::bit") and len(args) == 2 and args[0][0] == "ptr":
+        a = it.deref_all(st, args[0])
+        b_ = it.deref_all(st, args[1])
+        if a[0] == "mag" and b_[0] == "mag":
+            it.store(st, args[0][1], args[0][2], MAG(opaque_sym(path.split("::")[-1], a[1], b_[1])))
+            return ret(st, UNIT)
+    if path == "biguint::BigUint::normalize" and args and args[0][0] == "ptr":
+        v = it.deref_all(st, args[0])
+        if v[0] == "mag":
+            return ret(st, UNIT)
+    if raw == "core::clone::Clone::clone_from" and len(args) == 2 and args[0][0] == "ptr":
+        it.store(st, args[0][1], args[0][2], it.deref_all(st, args[1]))
+        return ret(st, UNIT)
     # ---- identities / predicates
     if raw == "num_traits::Zero::zero" or raw == "num_traits::identities::Zero::zero":
         d = strip_refs(dest_ty)
@@ -295,6 +326,19 @@ def dispatch(it, body, st, t, fn, args, depth):
                     st.nz.add(r.single_symbol())
                 if kz is True:
                     r = Poly()
+        elif base in ("bitand", "bitor", "bitxor"):
+            if big:
+                return None  # BigInt bit operators: interpret the crate's own sign dispatch
+            if base == "bitand" and (pa.is_zero() or pb.is_zero()):
+                r = Poly()
+            elif base in ("bitor", "bitxor") and pa.is_zero():
+                r = pb
+            elif base in ("bitor", "bitxor") and pb.is_zero():
+                r = pa
+            else:
+                r = opaque_sym(base, pa, pb)
+                if base == "bitor" and (st.known_zero(pa) is False or st.known_zero(pb) is False):
+                    st.nz.add(r.single_symbol())
         else:
             raise Unsupported("operator %s" % base)
         if big:
